@@ -359,6 +359,17 @@ fn run(seed: u64, round_trip: bool) -> RunOut {
 	for n in nodes.iter() {
 		n.node.get_and_clear_pending_msg_events();
 	}
+	// The persisted state is the one written while the peers were still connected (a crash, not a clean
+	// shutdown) -- except in the disconnect-timer situation, where the ticks come after the disconnect.
+	let snap = |nodes: &Vec<Node>| -> (Vec<u8>, Vec<Vec<u8>>) {
+		let mgr_bytes = nodes[x].node.encode();
+		let mut mons: Vec<Vec<u8>> = Vec::new();
+		for cid in nodes[x].chain_monitor.chain_monitor.list_monitors() {
+			mons.push(nodes[x].chain_monitor.chain_monitor.get_monitor(cid).unwrap().encode());
+		}
+		(mgr_bytes, mons)
+	};
+	let early_snapshot = if round_trip && mode != 3 { Some(snap(&nodes)) } else { None };
 	for p in (0..3).filter(|p| *p != x) {
 		disconnect(&nodes, x, p);
 	}
@@ -375,11 +386,10 @@ fn run(seed: u64, round_trip: bool) -> RunOut {
 		}
 	}
 	if round_trip {
-		let mgr_bytes = nodes[x].node.encode();
-		let mut mons: Vec<Vec<u8>> = Vec::new();
-		for cid in nodes[x].chain_monitor.chain_monitor.list_monitors() {
-			mons.push(nodes[x].chain_monitor.chain_monitor.get_monitor(cid).unwrap().encode());
-		}
+		let (mgr_bytes, mons) = match early_snapshot {
+			Some(s) => s,
+			None => snap(&nodes),
+		};
 		let refs: Vec<&[u8]> = mons.iter().map(|m| &m[..]).collect();
 		reload_node!(nodes[x], &mgr_bytes, &refs, persister, new_chain_monitor, node_reloaded);
 	}
